@@ -18,7 +18,26 @@ def main():
     a = common.parse_args('C03')
     thorough = a.tier == 'thorough'
     kc = common.KernelCheck(a, ['h_zone.cpp'], with_zonedb=True, with_zonedbx=True, level='translation_validation')
+    import random
+    import subprocess
+    import tempfile
     programs = [('synthetic', pipeline.synthetic_source()), ('reconstructed', pipeline.reconstructed_source())]
+    rnd = random.Random(a.seed)
+    nmut = 12 if thorough else 3
+    mutants = []
+    tries = 0
+    while len(mutants) < nmut and tries < 100:
+        tries += 1
+        txt, what = pipeline.mutate_source(pipeline.synthetic_source(), rnd)
+        if what == 'unchanged':
+            continue
+        with tempfile.TemporaryDirectory(dir=kc.wd) as td:
+            src = os.path.join(td, 's.txt')
+            open(src, 'w').write(txt)
+            if subprocess.run(['zic', '-d', os.path.join(td, 'zi'), src], stdout=subprocess.PIPE, stderr=subprocess.STDOUT).returncode != 0:
+                continue        # zic itself rejects the variant: not a program
+        mutants.append(('mutant%02d' % len(mutants), txt, what))
+    programs += [(n, t) for (n, t, w) in mutants]
     reps = []
     for name, text in programs:
         for scope in ('extended', 'basic'):
@@ -41,6 +60,7 @@ def main():
         'functions_encoded': sorted(set(f for r in reps for f in r.get('functions', []))),
         'compiler': 'tools/tzcompiler.py (Extractor, Transformer, ArduinoGenerator incl. BufSizeEstimator, ZoneListGenerator, '
                     'TzDbCollector) run as a subprocess of this check on each program',
+        'mutant_programs': [{'name': n, 'change': w} for (n, t, w) in mutants],
         'bounds': {'programs': [n for n, _ in programs], 'instants': 'every epoch second of 2000..2049, symbolic',
                    'zones': 'all emitted zones of the synthetic program; %s emitted zones of the reconstructed 2020d subset' % (
                        'all' if thorough else 'a seed-drawn sample of 24 per scope among the')},
